@@ -36,7 +36,17 @@ type c08Case struct {
 	Status int                `json:"status"`
 }
 
-func c08Build(cs *c08Case, order string, hits *[]int, where string) *fiber.App {
+// c08Mount: a sub-application is mounted with Use on the parent, or -- the same thing written differently -- with Use on a
+// Group of the parent
+func c08Mount(parent *fiber.App, prefix string, sub *fiber.App, viaGroup bool) {
+	if viaGroup {
+		parent.Group("/").Use(prefix, sub)
+		return
+	}
+	parent.Use(prefix, sub)
+}
+
+func c08Build(cs *c08Case, order string, hits *[]int, where string, viaGroup bool) *fiber.App {
 	mk := func(id int) *fiber.App {
 		f := cs.Cfg[strconv.Itoa(id)]
 		cfg := fiber.Config{}
@@ -58,6 +68,8 @@ func c08Build(cs *c08Case, order string, hits *[]int, where string) *fiber.App {
 		switch c.Get("X-Kind") {
 		case "fiber418":
 			return fiber.NewError(418, "teapot")
+		case "wrapped418":
+			return fmt.Errorf("while handling %s: %w", c.Path(), fiber.NewError(418, "teapot"))
 		case "plain":
 			return errors.New("plain")
 		}
@@ -80,11 +92,11 @@ func c08Build(cs *c08Case, order string, hits *[]int, where string) *fiber.App {
 	}
 	if order == "child-first" {
 		for i := len(sorted) - 1; i >= 0; i-- {
-			apps[sorted[i].Parent].Use(join(sorted[i].Local), apps[sorted[i].ID])
+			c08Mount(apps[sorted[i].Parent], join(sorted[i].Local), apps[sorted[i].ID], viaGroup)
 		}
 	} else {
 		for _, a := range sorted {
-			apps[a.Parent].Use(join(a.Local), apps[a.ID])
+			c08Mount(apps[a.Parent], join(a.Local), apps[a.ID], viaGroup)
 		}
 	}
 	if where == "last" || where == "inside" { // (inside: a request that enters no mounted app still has its error raised)
@@ -124,7 +136,7 @@ func TestC08(t *testing.T) {
 							hh = func(string, string, string) (int, string) { return 0, "build panic: " + msg }
 						}
 					}()
-					app := c08Build(&cs, order, &hits, where)
+					app := c08Build(&cs, order, &hits, where, n%2 == 0)
 					handler := app.Handler()
 					return func(method, p, kind string) (st int, pan string) {
 						defer func() {
@@ -153,7 +165,7 @@ func TestC08(t *testing.T) {
 						}
 						sort.Strings(pre)
 						o.violation(map[string]any{"check": "wrong-error-handler-or-status", "prop": "C08", "mounts": pre, "root": cs.Cfg["0"],
-							"path": path, "kind": cs.Kind, "order": order, "raised": where, "expected": map[string]any{"handlers": exp, "status": cs.Status},
+							"path": path, "kind": cs.Kind, "order": order, "mounted_through_a_group": n%2 == 0, "raised": where, "expected": map[string]any{"handlers": exp, "status": cs.Status},
 							"observed": map[string]any{"handlers": got, "status": st, "panic": pan}, "run": r})
 						break
 					}
